@@ -204,7 +204,7 @@ def run(ctx: Ctx):
             yield f"exhH{depth}:{k}", {"surface": ("fs", "action", "node")[k % 3], "restore_duration": 1,
                                       "ops": [["cfile", "fa", "a", False]] + ops}
         # folder delete / restore against a running (or frozen) restore countdown, default duration 3
-        depth = ctx.scale(6, 7)
+        depth = ctx.scale(5, 7)
         ctx.count(f"exhaustive:R:alphabet={len(rig.folder_restore_alphabet())}:depth={depth}", len(rig.folder_restore_alphabet()) ** depth)
         for k, ops in enumerate(rig.exhaustive(rig.folder_restore_alphabet(), depth)):
             yield f"exhR{depth}:{k}", {"surface": ("fs", "node")[k % 2], "restore_duration": 3 if k % 4 < 2 else 2,
